@@ -167,6 +167,60 @@ Example c11_example_lane_model :
   llevel (lz (fst (lrun (lzempty [2; 1; 4; 1; 3]%nat) ops))) = 1%nat.
 Proof. vm_compute. split; reflexivity. Qed.
 
+(* what must NOT change.  Queries (Count, GetRank, GetScore, GetRange, GetRangeByScore, Len)
+   leave the whole state untouched — the heap with all its lanes, the member table, even the
+   unused heights — in the lane model, the level-0 model and the reference: a history and the
+   same history without its queries end in the same state *)
+Theorem c11_queries_change_nothing :
+  forall (orc : list nat) (ops : list op),
+    fst (lrun (lzempty orc) ops) = fst (lrun (lzempty orc) (filter mutating ops)) /\
+    fst (run empty ops) = fst (run empty (filter mutating ops)) /\
+    fst (spec_run [] ops) = fst (spec_run [] (filter mutating ops)).
+Proof. exact queries_change_nothing. Qed.
+Print Assumptions c11_queries_change_nothing.
+
+(* Add and Remove change exactly the entry of their member (after any history) ... *)
+Theorem c11_add_remove_exact :
+  forall (ops : list op) (e s : Z),
+    let z := fst (run empty ops) in
+    (forall x, In x (zsl (fst (add z e s))) <-> x = (s, e) \/ (In x (zsl z) /\ member x <> e)) /\
+    (forall x, In x (zsl (fst (remove z e))) <-> In x (zsl z) /\ member x <> e).
+Proof. exact add_remove_exact. Qed.
+Print Assumptions c11_add_remove_exact.
+
+(* ... RemoveRangeByRank removes exactly the ranks of the normalised range, returns their
+   number and keeps the rest in order (for RemoveRangeByScore see c11_inclusive_ends) *)
+Theorem c11_remove_by_rank_exact :
+  forall (z : zset) (start stop : Z),
+    let '(z', o) := rem_by_rank z start stop in
+    match norm_range (zlen (zsl z)) start stop with
+    | None => zsl z' = zsl z /\ o = OInt 0
+    | Some (a, b) =>
+        zsl z' = firstn (Z.to_nat a) (zsl z) ++ skipn (Z.to_nat (b + 1)) (zsl z) /\ o = OInt (b - a + 1)
+    end.
+Proof. exact remove_by_rank_exact. Qed.
+Print Assumptions c11_remove_by_rank_exact.
+
+(* the level-0 forward references from the header visit the reference ranking, the backward
+   references from the tail its reverse (what HeadNode/Next and TailNode/Before walk) *)
+Theorem c11_walks_are_ranking :
+  forall (orc : list nat) (ops : list op),
+    let l := lz (fst (lrun (lzempty orc) ops)) in
+    let R := ranking (fst (spec_run [] ops)) in
+    exists x, next0 l Head = Some x /\
+              lwalk l false x (length R) = Some (map member R) /\
+              lwalk l true (ltail l) (length R) = Some (rev (map member R)).
+Proof. exact walks_are_ranking. Qed.
+Print Assumptions c11_walks_are_ranking.
+
+Example c11_example_exact :
+  let ops := [Add 1 10; Add 2 20; Count 0 50; Add 3 30; GetRank 2 true; Add 4 20; GetRange 0 (-1) false] in
+  filter mutating ops = [Add 1 10; Add 2 20; Add 3 30; Add 4 20] /\
+  zsl (fst (rem_by_rank (fst (run empty ops)) (-3) 5)) = [(10, 1)] /\
+  lwalk (lz (fst (lrun (lzempty [3; 1; 2; 1]%nat) ops))) true (ltail (lz (fst (lrun (lzempty [3; 1; 2; 1]%nat) ops)))) 4
+    = Some [3; 4; 2; 1].
+Proof. vm_compute. repeat split; reflexivity. Qed.
+
 (* non-vacuity: the history of defect 20 — scores {10, 20, 30}, RemoveRangeByScore(10, 20)
    removes the two members at 10 and 20 — and ties, negative ranks, reverse ranges *)
 Example c11_example :
